@@ -323,6 +323,95 @@ pub fn run_workload(sub: u64, only_leg: Option<&str>, acc: &mut Acc, ctx: &Ctx, 
         }
     }
 
+    // ---- stat of an opened file fails (open and reads work): nothing observable changes ----
+    if want("fstat-fault") && !files.is_empty() && w.mode != "files" && !w.pre {
+        let victim = files[rng.below(files.len())].clone();
+        let multiline = rng.chance(1, 2);
+        let map = if rng.chance(1, 2) { "--mmap" } else { "--no-mmap" };
+        // with -U a pattern that can match a line terminator, so that whole files are read into the searcher's multi-line buffer
+        let fargs: Vec<String> = if multiline {
+            let mut v: Vec<String> = vec![];
+            for a in &args {
+                if a == "foo" {
+                    v.push("-U".into());
+                    v.push(["foo[^z]*?\\n", "foo\\s+\\w"][rng.below(2)].into());
+                } else {
+                    v.push(a.clone());
+                }
+            }
+            v
+        } else {
+            args.clone()
+        };
+        let fmk = |plan: Vec<String>| RunSpec { args: fargs.iter().cloned().chain([map.to_string()]).collect(), plan, sched: w.sched.clone(), ..RunSpec::default() };
+        let base_spec = fmk(vec!["noop=1".into()]);
+        let spec = fmk(vec![format!("fstat_err=/w/{victim}:{}", [5, 13, 116][rng.below(3)])]);
+        let base = ctx.run(&cwd, &base_spec, 30);
+        let got = ctx.run(&cwd, &spec, 30);
+        acc.evals += 2;
+        digest = digest_out(digest_out(digest, &base), &got);
+        acc.faults.add("fstat-of-open-file-fails", got.fired("fstat_err"));
+        let canon = |o: &RunOut| {
+            let m = mask_times(&o.stdout);
+            if w.threads == 1 {
+                m
+            } else {
+                let mut v: Vec<Vec<u8>> = lines(&m).into_iter().map(|l| l.to_vec()).collect();
+                v.sort();
+                v.join(&b"\n"[..])
+            }
+        };
+        if got.fired("fstat_err") > 0 && (canon(&got) != canon(&base) || got.code != base.code || got.stderr != base.stderr) {
+            acc.violation("C15", "fstat-fault-changed-outcome", format!("stat of the already opened w/{victim} fails ({map}{}): exit {} (without the fault {}), {} vs {} bytes of stdout, stderr {:?}", if multiline { ", -U" } else { "" }, got.code, base.code, got.stdout.len(), base.stdout.len(), show(&got.stderr)), sub, replay_body(sub, &w, "fstat-fault", &spec, Some(&base), &got, json!({"victim": victim})));
+        }
+    }
+
+    // ---- the preprocessor of one file fails after writing all of its output ------------
+    if want("pre-child-fails") && w.pre && !files.is_empty() && w.mode != "quiet" {
+        let victim = files[rng.below(files.len())].clone();
+        let base = victim.rsplit('/').next().unwrap().to_string();
+        let victims: BTreeSet<String> = files.iter().filter(|f| f.rsplit('/').next().unwrap() == base).cloned().collect();
+        let (how, script) = match rng.below(4) {
+            0 => ("exit 3, silent", "catself,exit:3"),
+            1 => ("SIGKILL, silent", "catself,kill:9"),
+            2 => ("exit 1 with a message", "catself,err:200,exit:1"),
+            _ => ("SIGSEGV, silent", "catself,kill:11"),
+        };
+        let spec = RunSpec { env: vec![("CHILDSTUB_SCRIPTS".into(), format!("{base}={script}"))], ..mk(vec!["noop=1".into()], &[]) };
+        let got = ctx.run(&cwd, &spec, 30);
+        acc.evals += 1;
+        digest = digest_out(digest, &got);
+        acc.faults.inc(&format!("preprocessor-fails-after-its-output({how})"));
+        let detail = json!({"victims": victims, "child": how});
+        // a search that stops at the first match abandons the child: not an error
+        let early_stop = matches!(w.mode.as_str(), "files-with-matches" | "files-without-match");
+        let must_report: Vec<&String> = victims.iter().filter(|v| !early_stop || !w.corpus.files.iter().any(|(p, c)| p == *v && file_matches(c))).collect();
+        let err_text = String::from_utf8_lossy(&got.stderr).into_owned();
+        for v in &must_report {
+            if !w.no_messages && !err_text.contains(&format!("w/{v}")) {
+                acc.violation("C15", "failed-preprocessor-not-reported", format!("the preprocessor of w/{v} ended with {how} after its whole output was read, but stderr does not name the file: {:?}", show(&got.stderr)), sub, replay_body(sub, &w, "pre-child-fails", &spec, Some(&reference), &got, detail.clone()));
+                break;
+            }
+        }
+        if w.no_messages && !got.stderr.is_empty() {
+            acc.violation("C15", "no-messages-not-honoured", format!("--no-messages but stderr is {:?}", show(&got.stderr)), sub, replay_body(sub, &w, "pre-child-fails", &spec, Some(&reference), &got, detail.clone()));
+        }
+        if !must_report.is_empty() && got.code != 2 {
+            acc.violation("C15", "status-with-failed-preprocessor", format!("the preprocessor of w/{victim} ended with {how} after its whole output was read: exit {} expected 2", got.code), sub, replay_body(sub, &w, "pre-child-fails", &spec, Some(&reference), &got, detail.clone()));
+        }
+        // (when a victim matches in an early-stop mode, whether the child's end of output was
+        // seen before the stop depends on where the match lies; C18 owns that question)
+        if line_mode {
+            let r = mask_times(&reference.stdout);
+            let g = mask_times(&got.stdout);
+            let exp_other: Vec<&[u8]> = lines(&r).into_iter().filter(|l| !victims.iter().any(|v| belongs(l, v))).collect();
+            let got_other: Vec<&[u8]> = lines(&g).into_iter().filter(|l| !victims.iter().any(|v| belongs(l, v))).collect();
+            if sorted(&exp_other) != sorted(&got_other) {
+                acc.violation("C15", "other-results-suppressed", format!("failing preprocessor for w/{victim}: results of other files changed"), sub, replay_body(sub, &w, "pre-child-fails", &spec, Some(&reference), &got, detail.clone()));
+            }
+        }
+    }
+
     // ---- timestamp sort: every file is stat()ed by name between listing and opening ----
     if want("timestamp-sort") && !files.is_empty() && !w.stats {
         let key = ["modified", "accessed", "created"][rng.below(3)];
